@@ -21,7 +21,8 @@
 
 enum { K_ULT, K_ULTM, K_TASK };
 enum { M_HIST, M_REV3 };
-enum { MS_NONE, MS_READY, MS_RUNNING, MS_BLOCKED, MS_TERM };
+enum { MS_NONE, MS_READY, MS_RUNNING, MS_BLOCKED, MS_TERM,
+       MS_WAITING /* inside a join: BLOCKED or READY (yield loop), both allowed */ };
 
 typedef struct {
     const char *name;
@@ -160,6 +161,11 @@ static void model_terminate(unit_t *u, int by_cancel)
         U[u->joiner].ms = MS_READY; /* woken (pushed or handed off to) */
         u->joiner = -1;
     }
+    /* a unit cancelled while it was waiting in a join gives up the join */
+    if (by_cancel && U[1 - slot].joiner == slot) {
+        U[1 - slot].joiner = -1;
+        U[1 - slot].being_joined = 0;
+    }
     if (by_cancel)
         n_cancel_term++;
     /* "runs the function exactly once" per incarnation, 0 if never started */
@@ -212,6 +218,9 @@ static void sample_all(const char *where)
             continue;
         if (st[i] == ABT_THREAD_STATE_BLOCKED)
             n_blocked_seen = 1;
+        if (u->ms == MS_WAITING && (st[i] == ABT_THREAD_STATE_BLOCKED ||
+                                    st[i] == ABT_THREAD_STATE_READY))
+            continue;
         abtmc_check(st[i] == ms2abt(u->ms), "state_mismatch",
                     "%s: ABT_thread_get_state(unit %d.%d inc %d)=%s, the "
                     "lifecycle model says %s (cancel_req=%d)",
@@ -252,7 +261,7 @@ static void slice_begin(unit_t *u, const char *where)
 {
     int slot = (int)(u - U);
     /* the unit we were blocked on may have been cancelled silently */
-    if (u->ms == MS_BLOCKED)
+    if (u->ms == MS_WAITING)
         for (int i = 0; i < 2; i++)
             if (U[i].joiner == slot && can_sample(&U[i]) &&
                 U[i].ms == MS_READY && U[i].cancel_req &&
@@ -268,6 +277,9 @@ static void slice_begin(unit_t *u, const char *where)
                     where, slot, u->gen);
         u->grace = 0;
     }
+    if (u->ms == MS_WAITING && U[1 - slot].joiner == slot &&
+        U[1 - slot].kind == K_TASK)
+        u->ms = MS_READY; /* join of a tasklet polls: the joiner keeps running */
     abtmc_check(u->ms == MS_READY, "slice_from_bad_state",
                 "%s: unit %d.%d runs while the model has it in state %d",
                 where, slot, u->gen, u->ms);
@@ -396,7 +408,7 @@ static void unit_body(void *arg, unit_fn_t self_fn)
                 unit_t *o = &U[1 - slot];
                 o->being_joined = 1;
                 o->joiner = slot;
-                u->ms = MS_BLOCKED;
+                u->ms = MS_WAITING;
                 OK(ABT_thread_join(o->h));
                 slice_begin(u, "after unit-side join");
                 o->being_joined = 0;
@@ -450,7 +462,7 @@ static void p_cancel(int slot)
     else
         OK(ABT_thread_cancel(u->h));
     u->cancel_req = 1;
-    u->grace = (u->ms == MS_BLOCKED);
+    u->grace = (u->ms == MS_WAITING);
     /* a request does nothing by itself */
     sample_all("after cancel");
 }
@@ -501,7 +513,8 @@ static void p_free(int slot)
                 "ABT_thread_free(unit %d.%d) returned but the unit never "
                 "finished or was cancelled (model state %d)",
                 slot, u->gen, u->ms);
-    abtmc_check(u->h == ABT_THREAD_NULL, "free_handle_not_null",
+    abtmc_check(u->h == (u->kind == K_TASK ? ABT_TASK_NULL : ABT_THREAD_NULL),
+                "free_handle_not_null",
                 "ABT_thread_free left the handle set");
     if (u->kind == K_ULTM)
         abtmc_check(!abtmc_ledger_find((void *)h, NULL, NULL), "not_freed",
@@ -636,7 +649,7 @@ static int enabled_ops(int *ops)
             ops[n++] = P_CREATE0U + 2 * s;
             continue;
         }
-        int live = u->ms == MS_READY || u->ms == MS_BLOCKED;
+        int live = u->ms == MS_READY || u->ms == MS_WAITING;
         if (live && u->hknown && !u->cancel_req)
             ops[n++] = P_CANCEL0 + s;
         if (u->named && !u->being_joined) {
